@@ -211,6 +211,16 @@ func (w *mrWorld) add(p *pkgFiles, pkg *types.Package, info *types.Info) {
 		if sig.Recv() != nil {
 			f.recvObj = sig.Recv()
 			f.recvType = sig.Recv().Type()
+			// a method belongs to the public API when its name is exported and its receiver type is exported or its values are
+			// handed out through an exported interface of the two packages (`parser` and `profile` through `url.Parser`) —
+			// not e.g. the Len/Less/Swap of an unexported sort adapter
+			t := f.recvType
+			if pt, ok := t.(*types.Pointer); ok {
+				t = pt.Elem()
+			}
+			if n, ok := t.(*types.Named); ok && !n.Obj().Exported() {
+				f.api = f.api && implementsExportedInterface(pkg, n, fd.Name.Name)
+			}
 		}
 		for i := 0; i < sig.Params().Len(); i++ {
 			f.params = append(f.params, sig.Params().At(i))
@@ -238,6 +248,34 @@ func (w *mrWorld) add(p *pkgFiles, pkg *types.Package, info *types.Info) {
 			w.byName[fd.Name.Name] = append(w.byName[fd.Name.Name], f)
 		}
 	})
+}
+
+// does the unexported named type n (or *n) implement an exported interface of the two packages (so that its values reach
+// the library's users)?
+func implementsExportedInterface(pkg *types.Package, n *types.Named, name string) bool {
+	scopes := []*types.Scope{pkg.Scope()}
+	for _, im := range pkg.Imports() {
+		if strings.HasPrefix(im.Path(), "github.com/nlnwa/whatwg-url/") {
+			scopes = append(scopes, im.Scope())
+		}
+	}
+	for _, sc := range scopes {
+		for _, nm := range sc.Names() {
+			tn, ok := sc.Lookup(nm).(*types.TypeName)
+			if !ok || !tn.Exported() {
+				continue
+			}
+			iface, ok := tn.Type().Underlying().(*types.Interface)
+			if !ok || iface.NumMethods() == 0 {
+				continue
+			}
+			// values of n are handed out as this interface: every exported method of n is then reachable (type assertion)
+			if types.Implements(n, iface) || types.Implements(types.NewPointer(n), iface) {
+				return true
+			}
+		}
+	}
+	return false
 }
 
 type mrCtx struct {
